@@ -113,6 +113,7 @@ type IfaceVal struct {
 	Tag *Term
 	Pay map[int]Val // type id -> payload (shared map, filled lazily for symbolic interfaces)
 	Sym string      // non-empty: symbolic origin (payloads created on demand with this prefix)
+	RT  types.Type  // a reflect.Type value: the Go type it describes
 }
 
 type FuncVal struct {
@@ -280,6 +281,9 @@ func (x *Exec) iteVal(c *Term, a, b Val) Val {
 		}
 		if av.Sym != "" || bv.Sym != "" {
 			r.Sym = av.Sym + bv.Sym
+		}
+		if av.RT != nil && bv.RT != nil && types.Identical(av.RT, bv.RT) {
+			r.RT = av.RT
 		}
 		return r
 	case SubmatchVal:
